@@ -369,6 +369,11 @@ def run(ctx) -> None:
             if isinstance(x, ast.Attribute) and x.attr == stack:
                 rep.violate("C01.R7", f, x, "the teardown stack is accessed from outside the Context class")
 
+    # the runner is registered as an exit callback: returning a truthy value from it would tell the
+    # exit stack to SUPPRESS the exception that ended the block
+    truthy_rets = [r for r in walk_own(runner.node) if isinstance(r, ast.Return) and r.value is not None and not (isinstance(r.value, ast.Constant) and not r.value.value)]
+    rep.check("C01.R6", not truthy_rets, runner, truthy_rets[0] if truthy_rets else runner.node, "the teardown runner returns nothing: the block's own exception is never suppressed by it", f"the teardown runner can return `{ast.unparse(truthy_rets[0].value) if truthy_rets else ''}`: as an exit-stack callback a truthy result swallows the exception that ended the block (the caller observes a normal exit)")
+
     # ------------------------------------------------------------------ R8 routes funnel
     routes = 0
 
@@ -464,6 +469,18 @@ def run(ctx) -> None:
             else:
                 rep.note("C01.R8: the @context_teardown callback does not close its generator in a finally block (not required by the statement)")
     rep.floor("C01.R8", routes, 5)
+    # the ComponentContext / module-level wrappers hand the callback on as it is (C02.R4)
+    from .common import include_rules
+
+    include_rules(ctx, "c02", "C01.R8", only=("C02.R4",))
+    # @context_teardown: the callback is registered only after the first half has run, so that
+    # it is torn down before everything the first half registered (strict LIFO)
+    if wrapper is not None:
+        wcfg_ = a.cfg(wrapper)
+        first_half = [n for n in wcfg_.live_nodes() if any(call_name(c) in ("asend", "__anext__", "anext") for c, _ in a.node_calls(wrapper, wcfg_, n))]
+        regn = [n for n in wcfg_.live_nodes() if any(c_.kind == "func" and c_.func is register for _c, c_ in a.node_calls(wrapper, wcfg_, n))]
+        if first_half and regn:
+            rep.check("C01.R8", all(wcfg_.dominates(first_half[0].id, r.id) for r in regn), wrapper, regn[0].ast, "the @context_teardown callback is registered after the generator's first half has run (it is newer than everything the first half registered)", "the @context_teardown callback is registered before the first half runs: callbacks / resources registered BY the first half are newer, so they are torn down first and the generator's second half runs after what it depends on is gone")
 
     # ------------------------------------------------------------------ R9 closed afterwards
     xcfg = a.cfg(aexit)
